@@ -119,7 +119,7 @@ def make_pool(workers=None):
 
 
 def run_tasks(pool, modname, fname, tasks, budget_s, per_task_timeout=600.0, on_result=None,
-              window=None):
+              window=None, min_tasks=0):
     """Submit tasks lazily (keeps at most `window` in flight); stop submitting when the wall
     budget is spent.  Returns (results list aligned with the tasks that were run, n_skipped)."""
     from concurrent.futures import FIRST_COMPLETED, wait
@@ -131,9 +131,10 @@ def run_tasks(pool, modname, fname, tasks, budget_s, per_task_timeout=600.0, on_
     results = {}
     exhausted = False
     skipped = 0
+    submitted = 0      # a slow machine must shrink the exploration, never reduce it to nothing
     while True:
         while not exhausted and len(inflight) < window:
-            if time.time() - t0 > budget_s:
+            if time.time() - t0 > budget_s and submitted >= min_tasks:
                 exhausted = True
                 skipped = sum(1 for _ in it)
                 break
@@ -143,6 +144,7 @@ def run_tasks(pool, modname, fname, tasks, budget_s, per_task_timeout=600.0, on_
                 exhausted = True
                 break
             inflight[pool.submit(_worker_call, modname, fname, t)] = (i, time.time())
+            submitted += 1
         if not inflight:
             break
         done, _ = wait(list(inflight), timeout=5.0, return_when=FIRST_COMPLETED)
